@@ -214,7 +214,7 @@ type c16Range struct{ lo, hi uint64 }
 
 // c16Hist is the part of the run history the classification needs.
 type c16Hist struct {
-	ranges    []c16Range   // processed ranges, in order
+	ranges    []c16Range     // processed ranges, in order
 	decrypted map[int]uint64 // triggers marked decrypted by the harness -> sync position at that moment
 }
 
